@@ -146,6 +146,15 @@ pub fn run(lines: &[String]) -> Vec<String> {
                 out.push("dropped".into());
             }
             "sleep_ms" => std::thread::sleep(std::time::Duration::from_millis(t[1].parse().unwrap())),
+            "idiom" => {
+                // idiom <n> <a> <b>: one function of the std-model conformance corpus (vsubjects::idioms)
+                let (n, a, b): (u32, u64, u64) = (t[1].parse().unwrap(), t[2].parse().unwrap(), t[3].parse().unwrap());
+                match std::panic::catch_unwind(|| vsubjects::idioms::run(n, a, b)) {
+                    Ok(Some(v)) => out.push(format!("idiom {} {} {} = {}", n, a, b, v)),
+                    Ok(None) => out.push(format!("idiom {} {} {} = none", n, a, b)),
+                    Err(_) => out.push(format!("idiom {} {} {} = panic", n, a, b)),
+                }
+            }
             "reg" => {
                 // user code announcing a cache through the public registry API: reg <cache> <tags|-> <events|-> <deps|->
                 let v = |x: &str| -> Vec<String> { if x == "-" { vec![] } else { x.split(',').map(|y| y.to_string()).collect() } };
